@@ -8,8 +8,13 @@ package util
 // Ghost position inside the current cycle: next == min + pos.
 //@ ghost IDSequence.pos uint64
 //@ ghost IDSequence.cycle uint64
+// Ghost set of all IDs handed out since creation.
+//@ ghost IDSequence.given map[uint16]bool
+//@ pred givenInv(c *IDSequence) = forall k uint16 :: (k in c.given) ==
+//@      ((c.cycle > 0 && c.min <= k && k <= c.max) || (c.cycle == 0 && c.min <= k && uint64(k) < uint64(c.min) + c.pos))
 //@ pred seqInv(c *IDSequence) = c.min <= c.max && uint64(c.next) == uint64(c.min) + c.pos &&
-//@      c.pos <= uint64(c.max) - uint64(c.min) && (c.overflow ==> c.pos == 0)
+//@      c.pos <= uint64(c.max) - uint64(c.min) && (c.overflow ==> c.pos == 0 && c.cycle > 0) &&
+//@      givenInv(c)
 
 //@ func NewIDSequence
 //@   nopanic [C29]
@@ -18,22 +23,26 @@ package util
 //@      result.min == minID && result.max == maxID
 //@   at return ghost result.pos = 0
 //@   at return ghost result.cycle = 0
+//@   at return ghost result.given = emptyset(uint16)
 
 //@ func (*IDSequence).Next
 //@   nopanic [C29]
 //@   requires [C29] inv: seqInv(c)
 //@   guarded [C29] lock: next, overflow
-//@   assigns c.next, c.overflow, c.pos, c.cycle
-//@   at return ghost c.cycle = ite(c.pos == uint64(c.max) - uint64(c.min), c.cycle + 1, c.cycle)
+//@   assigns c.next, c.overflow, c.pos, c.cycle, c.given
+//@   at return ghost c.given = add(c.given, id)
+//@   at return ghost c.cycle = ite(c.pos == uint64(c.max) - uint64(c.min), ite(c.cycle == 0xFFFFFFFFFFFFFFFF, c.cycle, c.cycle + 1), c.cycle) // saturating
 //@   at return ghost c.pos = ite(c.pos == uint64(c.max) - uint64(c.min), 0, c.pos + 1)
 //@   ensures [C29] keeps_inv: seqInv(c)
 //@   ensures [C29] in_order: uint64(id) == uint64(c.min) + old(c.pos)
 //@   ensures [C29] in_range: c.min <= id && id <= c.max
-//@   ensures [C29] wraps: old(c.pos) == uint64(c.max) - uint64(c.min) ==> c.pos == 0 && c.cycle == old(c.cycle) + 1
+//@   ensures [C29] wraps: old(c.pos) == uint64(c.max) - uint64(c.min) ==> c.pos == 0 && c.cycle > 0 && c.cycle >= old(c.cycle)
 //@   ensures [C29] advances: old(c.pos) < uint64(c.max) - uint64(c.min) ==> c.pos == old(c.pos) + 1 && c.cycle == old(c.cycle)
 //@   ensures [C29] overflow_reported: overflow == old(c.overflow)
 //@   ensures [C29] overflow_first_after_wrap: c.overflow == (old(c.pos) == uint64(c.max) - uint64(c.min))
 //@   ensures [C29] immutable_range: c.min == old(c.min) && c.max == old(c.max)
+//@   ensures [C29,C04] given_grows: c.given == add(old(c.given), id)
+//@   ensures [C29,C04] distinct_within_first_cycle: old(c.cycle) == 0 ==> !old(id in c.given)
 
 // ---- C29: client state (sync/atomic) ----
 //@ func (*ClientState).Set
